@@ -1,6 +1,7 @@
 SPECIFICATION TraceSpec
 CONSTANTS
   IfaceDeep = TRUE
+  EmptyDeep = TRUE
   ExactSize = TRUE
   RedactOnCopy = TRUE
   MaxMut = 0
